@@ -271,7 +271,7 @@ PROPS = {
     ),
     "C09": dict(
         proof_modules=["KsVerif.Proofs.C09"],
-        families=["sched.match.redis", "sched.match.http", "sched.match.http10", "sched.match.amqp", "sched.excl"],
+        families=["sched.match.redis", "sched.match.http", "sched.match.http10", "sched.match.amqp", "sched.match.kafka", "sched.excl"],
         rule="sched.excl: with one half parked AT a yield point inside the matcher's locked region, the other half must block "
              "(that the lock excludes is observed on the running code, not read off the lock statements); "
              "every schedule of the two halves of a connection at the yield points (each register is one step "
@@ -283,14 +283,17 @@ PROPS = {
     ),
     "C10": dict(
         proof_modules=["KsVerif.Proofs.C10"],
-        families=["sched.match.redis", "sched.match.http", "sched.match.http10", "sched.match.amqp", "sched.excl"],
+        families=["sched.match.redis", "sched.match.http", "sched.match.http10", "sched.match.amqp", "sched.match.kafka", "sched.excl"],
         rule="sched.excl: with one half parked AT a yield point inside the matcher's locked region, the other half must block; "
              "the real Dissect of both halves runs in two controlled goroutines sharing matcher, counters and emitter; "
              "every interleaving at the yield points, exhaustively (stateless DFS) for 1-2 exchanges (quick) / 1-3 "
              "(thorough), seeded random schedules for 3-8 exchanges; trace, items, indices, residue and statistics "
              "compared with the Lean interpreter of the regenerated shapes; non-trivial = at least two goroutine switches",
         trusted_base=SCHED_TB + LIB,
-        assumptions=["kafka's polling matcher is not covered by the atomic-register theorem (see DESIGN.md C10)"],
+        assumptions=["kafka's polling matcher is not covered by the atomic-register theorem; it is driven under the scheduler "
+                     "(sched.match.kafka, maxTry 3): on schedules where a response runs out of tries before its request is "
+                     "registered the pair is legitimately lost (a timeout) and only 'no wrong pair, none twice, the waiting ones "
+                     "are unanswered requests' is demanded"],
     ),
     "C19": dict(
         proof_modules=["KsVerif.Proofs.C19"],
